@@ -32,7 +32,7 @@ for lg in sorted(glob.glob('/tmp/seed6/C??.log')):
         "origin": "HELD-OUT round: independent sub-agent given only the property text, the notes of the five earlier rounds to avoid, and a scratch worktree of tuffy/flac-codec (nothing from /verif)",
         "needs_to_manifest": next((l.strip() for l in notes.splitlines() if re.search(r'manifest|trigger|needs', l, re.I) and len(l) > 40), notes[:300]),
         "confirmed_by_me": {"how": "tools/confirm_seed6.sh in the scratch worktree: patch applies to a clean checkout; full existing suite passes with it; demo fails with it; demo passes without it", "result": confirm[key]},
-        "checks_run": "tools/seedtest.sh <patch> quick  (git -C /repo apply; every registered quick check; git -C /repo checkout -- .)",
+        "checks_run": "tools/seedtest.sh <patch> quick <own property>  (git -C /repo apply; the quick check of the property the change breaks; git -C /repo checkout -- .) - no cross run against the other 19 checks in this round (time)",
         "detected_by": hits,
         "not_detected_by_quick": [c for c, v in detect.items() if v[0] == 0],
         "machinery_errors": broken,
